@@ -180,7 +180,7 @@ func cmdRoute(o opts) {
 		// FixFrame: edit the received message, fix, write, next hop
 		if v.Var == "canon" || v.Var == "signed" || v.Var == "v1" || v.Var == "after_nul" {
 			for _, keyed := range []bool{false, true} {
-				for _, edit := range []string{"all", "none", "sigfields"} {
+				for _, edit := range []string{"all", "none", "sigfields", "twice_seq"} {
 					if edit == "sigfields" && v.Var != "signed" {
 						continue
 					}
@@ -234,7 +234,7 @@ func fixOne(rec *Rec, r *rand.Rand, v routeVec, drw *dialect.ReadWriter, dl []in
 			v2.SignatureTimestamp += 12345
 		}
 	}
-	for i := 0; i < mv.NumField() && edit == "all"; i++ {
+	for i := 0; i < mv.NumField() && (edit == "all" || edit == "twice_seq"); i++ {
 		f := mv.Field(i)
 		switch f.Kind() {
 		case reflect.String:
@@ -256,6 +256,25 @@ func fixOne(rec *Rec, r *rand.Rand, v routeVec, drw *dialect.ReadWriter, dl []in
 			}
 		}()
 		err := node.FixFrame(fr)
+		if edit == "twice_seq" && err == nil {
+			// the frame goes out once, then the application re-stamps the sequence number for another link and asks the
+			// node to fix the frame again (the message is in encoded form by now)
+			s0 := &recWriter{}
+			w0 := &frame.Writer{ByteWriter: s0, DialectRW: drw}
+			w0.Initialize()
+			w0.Write(fr) //nolint:errcheck
+			newSeq := 0
+			switch f := fr.(type) {
+			case *frame.V1Frame:
+				f.SequenceNumber += 7
+				newSeq = int(f.SequenceNumber)
+			case *frame.V2Frame:
+				f.SequenceNumber += 7
+				newSeq = int(f.SequenceNumber)
+			}
+			rcd["seq2"] = newSeq
+			err = node.FixFrame(fr)
+		}
 		rcd["fix_ok"] = err == nil
 		sink := &recWriter{}
 		w := &frame.Writer{ByteWriter: sink, DialectRW: drw}
